@@ -54,7 +54,7 @@ type Delegation struct {
 	Forwarded *Forwarded // This is used in iq to wrap delegated iqs
 	Delegated *Delegated // This is used in a message to confirm delegated namespace
 	// Result sets
-	ResultSet *ResultSet `xml:"set,omitempty"`
+	ResultSet *ResultSet `xml:"http://jabber.org/protocol/rsm set,omitempty"`
 }
 
 func (d *Delegation) Namespace() string {
